@@ -87,7 +87,7 @@ func (it *Interp) pickRunnable() *Goroutine {
 			}
 		}
 	}
-	for round := 0; round < 2; round++ {
+	for round := 0; ; round++ {
 		if it.cur != nil && it.cur.state == gRunnable {
 			return it.cur
 		}
@@ -561,6 +561,15 @@ func (it *Interp) advanceTime() bool {
 		}
 	}
 	_ = fired
+	// a channel timer that is due fires into its channel whether or not anybody
+	// is waiting on it yet (otherwise an armed timer nobody polls would hold
+	// virtual time at its instant for ever)
+	for _, t := range it.timers() {
+		if t.active && t.fn == nil && t.ch != nil && t.when <= it.nowNs() {
+			it.chanUndo(t.ch)
+			it.timerPoll(t.ch)
+		}
+	}
 	it.ghost["__advances"] = it.advances() + 1
 	if it.advances() > 10000 {
 		panic(pathAbort{"budget", "virtual time advanced 10000 times"})
